@@ -1099,7 +1099,11 @@ func (c *Check) measureCoverage(fixed []*plan.Plan) {
 		wg.Add(1)
 		go func(p *plan.Plan) {
 			defer wg.Done()
+			tr := time.Now()
 			prof := c.env.RunCover(p)
+			if d := time.Since(tr); d > 5*time.Second {
+				logf("coverage run of plan %s/%d took %.1fs (%d tasks, kernel %s)", p.Batch, p.Run, d.Seconds(), len(p.Tasks), p.Kernel)
+			}
 			mu.Lock()
 			defer mu.Unlock()
 			for _, l := range strings.Split(prof, "\n") {
